@@ -806,3 +806,14 @@ VARIANTS += [
     V('C19-M22', 'M', ('C19',), ST, 'EagerBatcher.__iter__', r'time\.perf_counter\(\)', 'time.time()', ('C19-3',), count=0, note='seeded C19-r3m2 shape'),
     V('C01-M24', 'M', ('C01', 'C18', 'C03', 'C05', 'C08'), QS, 'SingleLane.get', r'(\n(\s+))z = self\._queue\.popleft\(\)\n\s+self\._not_full\.notify\(\)', r'\1was_full = self.full()\1z = self._queue.popleft()\1if was_full:\1    self._not_full.notify()', ('C01-4', 'C18-11', 'C03-8', 'C05-8', 'C08-5'), note='seeded C18-r3m2 shape: conditional notify'),
 ]
+
+
+# ---------------------------------------------------------------------- whole-module reformat: every module re-emitted by ast.unparse (comments gone, all line numbers moved, quotes/parentheses normalised)
+def _reformat(m):
+    import ast as _ast
+
+    return _ast.unparse(_ast.parse(m.group(0))) + '\n'
+
+
+for _i, _m in enumerate(_MODS + [FU]):
+    VARIANTS.append(V(f'G-fmt-{_i:02d}', 'E', ALL, _m, None, r'\A.*\Z', _reformat, flags=re.S, note='module re-emitted by ast.unparse'))
